@@ -379,7 +379,6 @@ fn paint_file_path_with_line_number(
     };
     let line_number_style = if matches!(include_line_number, HunkHeaderIncludeLineNumber::Yes)
         && line_number.is_some()
-        && !config.hunk_header_style.is_raw
         && !config.color_only
     {
         Some(*line_number_style)
